@@ -21,15 +21,35 @@ func asPtr(v Val, elem types.Type) *PtrV {
 
 // ptrTerm converts a structured pointer to its SMT reference, if it denotes a whole object.
 func (st *State) ptrTerm(p *PtrV) *Term {
+	if len(p.Alts) > 0 {
+		self := *p
+		self.Alts = nil
+		t := st.ptrTerm(&self)
+		for i := len(p.Alts) - 1; i >= 0; i-- {
+			t = Ite(p.Alts[i].Cond, st.ptrTerm(p.Alts[i].P), t)
+		}
+		return t
+	}
 	if p.Kind == PHeap && p.Idx == nil && p.Key == typeKey(p.Elem) {
 		return p.Base
 	}
 	if p.Kind == PHeap && p.Idx == nil {
-		// interior pointer: derived reference (over-approximates aliasing: no distinctness is assumed)
-		return App("iptr:"+p.Key, IntSort, p.Base)
+		// interior pointer: derived reference (over-approximates aliasing: no distinctness is assumed); nil (base 0,
+		// which arises when nil and an interior pointer merge) stays nil
+		a := App("iptr:"+p.Key, IntSort, p.Base)
+		st.vc.addGlobalFact(Gt(a, IntC(0)))
+		if p.Base.IsConst || p.Base.Op == "ite" {
+			return Ite(Eq(p.Base, IntC(0)), IntC(0), a)
+		}
+		return a
 	}
 	if p.Kind == PHeap {
-		return App("eptr:"+p.Key, IntSort, p.Base, toIntIdx(p.Idx))
+		a := App("eptr:"+p.Key, IntSort, p.Base, toIntIdx(p.Idx))
+		st.vc.addGlobalFact(Gt(a, IntC(0)))
+		if p.Base.IsConst || p.Base.Op == "ite" {
+			return Ite(Eq(p.Base, IntC(0)), IntC(0), a)
+		}
+		return a
 	}
 	st.setTaint("address of a local or global escapes as a value (" + p.Key + ")")
 	return Fresh("escaped", IntSort)
@@ -53,6 +73,15 @@ func (st *State) setTaint(why string) {
 
 func fieldPtr(p *PtrV, st *types.Struct, i int) *PtrV {
 	f := st.Field(i)
+	if len(p.Alts) > 0 {
+		self := *p
+		self.Alts = nil
+		np := fieldPtr(&self, st, i)
+		for _, a := range p.Alts {
+			np.Alts = append(np.Alts, PtrAlt{a.Cond, fieldPtr(a.P, st, i)})
+		}
+		return np
+	}
 	switch p.Kind {
 	case PCell:
 		np := *p
@@ -69,6 +98,21 @@ func fieldPtr(p *PtrV, st *types.Struct, i int) *PtrV {
 
 // load reads a value of type p.Elem through p.
 func (st *State) load(p *PtrV) Val {
+	if len(p.Alts) > 0 {
+		self := *p
+		self.Alts = nil
+		v := st.load(&self)
+		for i := len(p.Alts) - 1; i >= 0; i-- {
+			m, ok := mergeVals(p.Alts[i].Cond, st.load(p.Alts[i].P), v)
+			if !ok {
+				st.setTaint("load through a pointer with alternatives of incompatible shapes")
+				fv, _ := st.vc.freshVal("ptralt", p.Elem)
+				return fv
+			}
+			v = m
+		}
+		return v
+	}
 	switch p.Kind {
 	case PCell:
 		v, ok := st.cells[p.Cell]
@@ -207,6 +251,34 @@ func (st *State) loadKey(kind PtrKind, key string, base, idx *Term, t types.Type
 }
 
 func (st *State) store(p *PtrV, v Val) {
+	if len(p.Alts) > 0 {
+		// conditional store into every alternative
+		savedPC := st.pc
+		none := True()
+		for _, a := range p.Alts {
+			c := And(none, a.Cond)
+			none = And(none, Not(a.Cond))
+			old := st.load(a.P)
+			m, ok := mergeVals(c, v, old)
+			if !ok {
+				st.setTaint("store through a pointer with alternatives of incompatible shapes")
+				continue
+			}
+			st.pc = And(savedPC, c)
+			st.store(a.P, m)
+		}
+		self := *p
+		self.Alts = nil
+		old := st.load(&self)
+		if m, ok := mergeVals(none, v, old); ok {
+			st.pc = And(savedPC, none)
+			st.store(&self, m)
+		} else {
+			st.setTaint("store through a pointer with alternatives of incompatible shapes")
+		}
+		st.pc = savedPC
+		return
+	}
 	switch p.Kind {
 	case PCell:
 		if len(p.Path) == 0 {
@@ -233,6 +305,10 @@ func updatePath(cur Val, path []int, v Val) Val {
 }
 
 func (st *State) storeKey(kind PtrKind, key string, base, idx *Term, t types.Type, v Val) {
+	if scalarSort(t) == nil || isRefLike(t) {
+		st.vc.escWhy = "store to " + key
+		st.vc.markEscaped(st, v)
+	}
 	if s := scalarSort(t); s != nil {
 		st.writeLeaf(kind, key, base, idx, st.toTerm(v, t))
 		return
@@ -314,8 +390,10 @@ func (st *State) havocPrefix(prefix string, why string) {
 	for _, name := range st.vc.reg.sorted() {
 		if keyHasPrefix(name, prefix) {
 			ki := st.vc.reg.m[name]
+			before := st.heapVar(ki)
 			st.heap[name] = Fresh("hv:"+name, ki.Sort)
 			st.touchKey(name)
+			st.restoreLocals(name, before)
 		}
 	}
 	st.vc.havocLog = append(st.vc.havocLog, prefix+" ("+why+")")
@@ -408,11 +486,14 @@ func mergeVals(c *Term, a, b Val) (Val, bool) {
 				}
 				return n, true
 			}
-			if py, ok2 := b.(*PtrV); ok2 && py.Kind == PHeap && x.IsConst && x.Sort.Kind == SInt && x.Int.Sign() == 0 {
+			if py, ok2 := b.(*PtrV); ok2 && py.Kind == PHeap && len(py.Alts) == 0 && x.IsConst && x.Sort.Kind == SInt && x.Int.Sign() == 0 {
 				// nil merged with an interior/element pointer: nil is the pointer with base 0
 				n := *py
 				n.Base = Ite(c, IntC(0), py.Base)
 				return &n, true
+			}
+			if py, ok2 := b.(*PtrV); ok2 && x.Sort.Kind == SInt && py.Elem != nil {
+				return mergeVals(c, &PtrV{Kind: PHeap, Base: x, Key: typeKey(py.Elem), Elem: py.Elem}, py)
 			}
 			return nil, false
 		}
@@ -466,20 +547,33 @@ func mergeVals(c *Term, a, b Val) (Val, bool) {
 	case *PtrV:
 		switch y := b.(type) {
 		case *PtrV:
-			if x.Kind != y.Kind || x.Key != y.Key || x.Cell != y.Cell || len(x.Path) != len(y.Path) {
-				return nil, false
+			if x == y {
+				return x, true
 			}
-			for i := range x.Path {
-				if x.Path[i] != y.Path[i] {
-					return nil, false
+			compatible := len(x.Alts) == 0 && len(y.Alts) == 0 && x.Kind == y.Kind && x.Key == y.Key && x.Cell == y.Cell && len(x.Path) == len(y.Path) && (x.Idx == nil) == (y.Idx == nil)
+			if compatible {
+				for i := range x.Path {
+					if x.Path[i] != y.Path[i] {
+						compatible = false
+					}
 				}
+			}
+			if !compatible {
+				// pointers of different shapes: keep both (x under c, else y)
+				n := *y
+				n.Alts = nil
+				for _, a := range x.Alts {
+					n.Alts = append(n.Alts, PtrAlt{And(c, a.Cond), a.P})
+				}
+				xs := *x
+				xs.Alts = nil
+				n.Alts = append(n.Alts, PtrAlt{c, &xs})
+				n.Alts = append(n.Alts, y.Alts...)
+				return &n, true
 			}
 			n := *x
 			if x.Base != nil {
 				n.Base = Ite(c, x.Base, y.Base)
-			}
-			if (x.Idx == nil) != (y.Idx == nil) {
-				return nil, false
 			}
 			if x.Idx != nil {
 				n.Idx = Ite(c, x.Idx, y.Idx)
@@ -489,10 +583,13 @@ func mergeVals(c *Term, a, b Val) (Val, bool) {
 			if x.Kind == PHeap && x.Idx == nil && x.Key == typeKey(x.Elem) {
 				return Ite(c, x.Base, y), true
 			}
-			if x.Kind == PHeap && y.IsConst && y.Sort.Kind == SInt && y.Int.Sign() == 0 {
+			if x.Kind == PHeap && len(x.Alts) == 0 && y.IsConst && y.Sort.Kind == SInt && y.Int.Sign() == 0 {
 				n := *x
 				n.Base = Ite(c, x.Base, IntC(0))
 				return &n, true
+			}
+			if y.Sort.Kind == SInt && x.Elem != nil {
+				return mergeVals(c, x, &PtrV{Kind: PHeap, Base: y, Key: typeKey(x.Elem), Elem: x.Elem})
 			}
 		}
 		return nil, false
@@ -636,4 +733,13 @@ func (vc *VC) funcFromTerm(t *Term) Val {
 		return n
 	}
 	return nil
+}
+
+// isRefLike: scalar-sorted types whose values are references (pointers, maps, channels, functions).
+func isRefLike(t types.Type) bool {
+	switch under(t).(type) {
+	case *types.Pointer, *types.Map, *types.Chan, *types.Signature, *types.Interface, *types.Slice:
+		return true
+	}
+	return false
 }
